@@ -232,6 +232,9 @@ func newUniverse(salt string, base uint64, comms, aggComms []uint64, proVer, agg
 		}
 		u.vds = append(u.vds, vd)
 	}
+	if base == 0 { // slots are built by the caller (real-deadliner world)
+		return u, nil
+	}
 	for _, slot := range []uint64{u.slots[0], u.slots[1], u.late} {
 		if err := u.buildSlot(slot); err != nil {
 			return nil, err
